@@ -71,6 +71,7 @@ type Exec struct {
 	inlineDepth int
 	recordAll bool
 	notes  []string
+	swMemo map[*ssa.Function]map[string]bool
 	onExit func(st *State) // the process terminates (os.Exit): evaluate the postconditions like at a return
 }
 
@@ -508,6 +509,33 @@ func (e *Exec) loopHeader(fr *frame, li *loopInfo, b, pred *ssa.BasicBlock, st *
 			}
 		}
 	}
+	// classes where the loop only initialises objects it allocates: what existed before the loop is unchanged
+	allocPreLoop := hst.alloc
+	var framedCls []string
+	for cls := range ws.freshOnly {
+		covered := false
+		for c := range ws.classes {
+			if strings.HasPrefix(cls, c) || strings.HasPrefix(c, cls) {
+				covered = true
+			}
+		}
+		if covered || strings.HasPrefix(cls, "G:") {
+			continue
+		}
+		framedCls = append(framedCls, cls)
+		for hs, srt := range e.ctx.heapSort {
+			if strings.HasPrefix(hs, cls) && strings.HasPrefix(string(srt), "(Array Int ") {
+				cur := e.heapGet(hst, hs, srt)
+				nw := e.ctx.fresh("fresh."+hs, srt)
+				loopHavocked = append(loopHavocked, hv{hs, nw})
+				hst.heap[hs] = e.ctx.def("framed", Mix(cur, nw, allocPreLoop))
+			}
+		}
+	}
+	if len(framedCls) > 0 {
+		sort.Strings(framedCls)
+		e.markFrame(hst, allocPreLoop, framedCls...)
+	}
 	for name := range ws.classes {
 		// havoc all heap symbols of this class prefix
 		for hs, srt := range e.ctx.heapSort {
@@ -679,6 +707,7 @@ func sameSSA(a, b ssa.Value) bool {
 }
 
 type writeSet struct {
+	freshOnly map[string]bool // classes in which only objects allocated by the code itself are initialised
 	points  []pointWrite
 	broad   map[string]bool // class prefixes written other than through point writes
 	locals  map[*ssa.Alloc]bool
@@ -690,7 +719,7 @@ type writeSet struct {
 
 // writeSet computes (an over-approximation of) the heap classes a loop writes.
 func (e *Exec) writeSet(fr *frame, li *loopInfo) writeSet {
-	ws := writeSet{classes: map[string]bool{}, locals: map[*ssa.Alloc]bool{}, broad: map[string]bool{}}
+	ws := writeSet{classes: map[string]bool{}, locals: map[*ssa.Alloc]bool{}, broad: map[string]bool{}, freshOnly: map[string]bool{}}
 	for b := range li.body {
 		for _, in := range b.Instrs {
 			if st, ok := in.(*ssa.Store); ok {
@@ -701,10 +730,13 @@ func (e *Exec) writeSet(fr *frame, li *loopInfo) writeSet {
 			}
 			before := len(ws.classes)
 			_ = before
-			tmp := writeSet{classes: map[string]bool{}, locals: ws.locals, broad: map[string]bool{}}
+			tmp := writeSet{classes: map[string]bool{}, locals: ws.locals, broad: map[string]bool{}, freshOnly: map[string]bool{}}
 			e.instrWrites(in, &tmp)
 			for c := range tmp.classes {
 				ws.classes[c] = true
+			}
+			for c := range tmp.freshOnly {
+				ws.freshOnly[c] = true
 			}
 			if tmp.alloc {
 				ws.alloc = true
@@ -726,6 +758,29 @@ func (e *Exec) writeSet(fr *frame, li *loopInfo) writeSet {
 	}
 	ws.points = keep
 	return ws
+}
+
+// staticWrites over-approximates the heap classes a function (with everything it calls) may write,
+// including the initialisation of objects it allocates. Memoised; recursion is cut.
+func (e *Exec) staticWrites(fn *ssa.Function) map[string]bool {
+	if e.swMemo == nil {
+		e.swMemo = map[*ssa.Function]map[string]bool{}
+	}
+	if m, ok := e.swMemo[fn]; ok {
+		return m
+	}
+	out := map[string]bool{}
+	e.swMemo[fn] = out // cuts recursion
+	ws := writeSet{classes: map[string]bool{}, locals: map[*ssa.Alloc]bool{}, broad: map[string]bool{}}
+	for _, b := range fn.Blocks {
+		for _, in := range b.Instrs {
+			e.instrWrites(in, &ws)
+		}
+	}
+	for c := range ws.classes {
+		out[c] = true
+	}
+	return out
 }
 
 func (e *Exec) instrWrites(in ssa.Instruction, ws *writeSet) {
@@ -776,6 +831,20 @@ func (e *Exec) instrWrites(in ssa.Instruction, ws *writeSet) {
 				for _, m := range sp.Modifies {
 					ws.classes[m] = true
 				}
+				// classes in which the callee may initialise objects it allocates
+				for m := range e.staticWrites(callee) {
+					listed := false
+					for _, mm := range sp.Modifies {
+						if strings.HasPrefix(m, mm) || strings.HasPrefix(mm, m) {
+							listed = true
+						}
+					}
+					if !listed && ws.freshOnly != nil {
+						ws.freshOnly[m] = true
+					} else {
+						ws.classes[m] = true
+					}
+				}
 				return
 			}
 			if e.ld.isModuleFn(callee) && len(callee.Blocks) > 0 {
@@ -790,6 +859,13 @@ func (e *Exec) instrWrites(in ssa.Instruction, ws *writeSet) {
 		// externals: declared effects
 		for _, m := range e.externModifies(c) {
 			ws.classes[m] = true
+		}
+		if callee != nil && (calleeKey(callee) == "strings.Split" || calleeKey(callee) == "strings.SplitN") {
+			if ws.freshOnly != nil {
+				ws.freshOnly["A:string#"] = true
+			} else {
+				ws.classes["A:string#"] = true
+			}
 		}
 	}
 }
